@@ -6,6 +6,8 @@ scheduler on the real preconditioner; exact float equality after every call.
 """
 from __future__ import annotations
 
+import random
+
 import math
 
 from kverif.common import Deadline, case_rng, stable_hash, tier_value
@@ -41,6 +43,22 @@ def make_factor(rng, idx, is_interval, calls, pname):
         def f(k):
             calls.append((pname, k))
             return a + b / (1 + (k % m) + idx)
+    kind = random.Random(stable_hash('schedule-object', idx, pname)).random()
+    if kind < 0.2:
+        # "any callable": a schedule object that is falsy (a table with no per-step overrides has len() == 0, a flag-like
+        # object defines __bool__) is still a schedule that was passed, and must be applied / refused like any other
+        class _Schedule:
+            def __init__(self, fn):
+                self.fn = fn
+
+            def __call__(self, k):
+                return self.fn(k)
+
+        if kind < 0.1:
+            _Schedule.__len__ = lambda self: 0
+        else:
+            _Schedule.__bool__ = lambda self: False
+        return _Schedule(f)
     return f
 
 
@@ -166,7 +184,13 @@ def run_sched_case(rng, res, idx, maxlen):
             q = BaseKFACPreconditioner({}, assignment=None, tdc=TorchDistributedCommunicator(), **cfg)
         res.count('ctor_reject_set_checks')
         try:
-            LambdaParamScheduler(q, **{lam + '_lambda': (lambda s: 1.0) for lam in lset})
+            class _Empty:   # a falsy schedule object (see make_factor)
+                def __call__(self, s):
+                    return 1.0
+
+                def __len__(self):
+                    return 0
+            LambdaParamScheduler(q, **{lam + '_lambda': (_Empty() if rng.random() < 0.3 else (lambda s: 1.0)) for lam in lset})
             raised = False
         except ValueError:
             raised = True
